@@ -226,23 +226,24 @@ and is always true where it is reached) -/
 def RwgState.assign (st : RwgState) (x : Nat) : RwgState :=
   { st with ed := upd st.ed x (some st.cnt), cnt := st.cnt + 1 }
 
+/-- the `else` branch of `if edge_dofs[edge_index] != -1` for edge `x`; the `Bool` is `has_dof` -/
+def rwgExamine (T : Tables) (incl trunc : Bool) (st : RwgState) (has : Bool) (x : Nat) : RwgState × Bool :=
+  let cur := T.enbrs x
+  -- `supported_neighbors` is computed once, before either `if`
+  let sn := cur.filter st.sup
+  let r1 : RwgState × Bool := if sn.length = 2 then (st.assign x, true) else (st, has)
+  if sn.length = 1 && incl then
+    let st2 := r1.1.assign x
+    let st3 : RwgState :=
+      if !trunc then { st2 with sup := fun c => if cur.contains c then true else st2.sup c } else st2
+    (st3, true)
+  else r1
+
 /-- body of `for local_index in range(3)` for `element = e`; the `Bool` is `has_dof` -/
 def rwgEdgeStep (T : Tables) (incl trunc : Bool) (e : Nat) (acc : RwgState × Bool) (i : Nat) : RwgState × Bool :=
-  let st := acc.1
-  let x := T.elementEdges e i
-  match st.ed x with
-  | some _ => (st, true)
-  | none =>
-    let cur := T.enbrs x
-    -- `supported_neighbors` is computed once, before either `if`
-    let sn := cur.filter st.sup
-    let r1 : RwgState × Bool := if sn.length = 2 then (st.assign x, true) else (st, acc.2)
-    if sn.length = 1 && incl then
-      let st2 := r1.1.assign x
-      let st3 : RwgState :=
-        if !trunc then { st2 with sup := fun c => if cur.contains c then true else st2.sup c } else st2
-      (st3, true)
-    else r1
+  match acc.1.ed (T.elementEdges e i) with
+  | some _ => (acc.1, true)
+  | none => rwgExamine T incl trunc acc.1 acc.2 (T.elementEdges e i)
 
 /-- body of `for element in np.flatnonzero(support)` (the list is a snapshot taken before the loop) -/
 def rwgElemStep (T : Tables) (incl trunc : Bool) (st : RwgState) (e : Nat) : RwgState :=
@@ -376,5 +377,17 @@ def bc (T : Tables) (sup : Nat → Bool) (incl trunc : Bool) : BaryData :=
   { space := blockSpace (6 * T.ne) 3 (barySupport T.ne (bcCoarseSupport T cs trunc))
     gdc := gridDofCount cs
     entries := [] }
+
+/-- loop of `_interior_barycentric_edges_coefficients` (grid.py) over the remaining edge lengths: `index`, `count` and
+`sign` are the loop variables of the source -/
+def bcInteriorGo (nc : Nat) : List Rat → Nat → Nat → Rat → List Rat
+  | [], _, _, _ => []
+  | len :: rest, index, count, sign =>
+    let count' := if index % 2 == 0 then count + 1 else count
+    sign * ((nc : Rat) - (count' : Rat)) / (2 * (nc : Rat) * len) :: bcInteriorGo nc rest (index + 1) count' (-sign)
+
+/-- the `values` of `_interior_barycentric_edges_coefficients(edge_lengths, vertex_edges, ..., sign, nc, ...)`, where
+`lens[k]` is the length of the barycentric edge of `vertex_edges[k]` -/
+def bcInteriorValues (sign : Rat) (nc : Nat) (lens : List Rat) : List Rat := bcInteriorGo nc lens 0 0 sign
 
 end BemppVerif.Model.Space
